@@ -271,7 +271,8 @@ def c10(sc, V):
         if not s.before.blocked and s.before.slot is None and s.kind() in ("req", "check", "start"):
             for reason in s.reasons:
                 if reason.startswith("arbiter is already running") or reason.startswith("arbiter is restarting"):
-                    # F33: a failed `restart` of the arbiter leaves `_restarting` set
+                    # the former F33 (a failed `restart` of the arbiter left `_restarting` set; repaired by 273f512): its own
+                    # signature, no longer a known finding — if it comes back it is a violation
                     f32 = reason.startswith("arbiter is restarting") and s.before.restarting
                     f.append({"sig": "wedged-after-failed-restart" if f32 else "refused-although-no-operation-in-flight",
                               "step": s.n,
@@ -280,8 +281,8 @@ def c10(sc, V):
                     break
         # `Process.stopping` says that a termination of this worker is in flight (a kill_process is polling it).  With no
         # timer pending nothing is in flight: the flag will never be cleared, and the next stop / kill of this worker waits
-        # for it for ever, holding the slot (F34: an AccessDenied from the SIGKILL escalation leaves kill_process between
-        # `stopping = True` and `stopping = False`)
+        # for it for ever, holding the slot (the former F34: an AccessDenied from the SIGKILL escalation left kill_process between
+        # `stopping = True` and `stopping = False`; repaired by 60e14d0 — no longer a known finding, a violation if it returns)
         if s.snap.quiescent():
             stuck = [(w["name"], q[0]) for w in s.snap.watchers for q in w["procs"]
                      if q[2] and alive(s.snap.kernel.get(q[0], ("g", None))[0])]
